@@ -24,3 +24,16 @@ Example C16_transitive_include :
   plookup (fun n _ => fc_eqb n ("", "Inner")) [] 4 mixin_map false [("", "Host"); ("", "Outer"); ("", "Inner")] ("", "Host")
   = Some (Some ("", "Inner"), [("", "Inner")]).
 Proof. vm_compute. reflexivity. Qed.
+
+(* completeness: when the walk answers nothing, Ruby's lookup reaches no class or module that defines the method —
+   on every inheritance map in which each node is searched in one way only (the visited set is keyed by the node) *)
+From RT Require Import Proofs.LookupCompleteP.
+Theorem C16_lookup_complete : forall has builtin m mode_of n st,
+  moded_map builtin m mode_of -> mode_of n = st ->
+  forall uv', plookup has builtin (S (List.length (universe m n))) m st (universe m n) n = Some (None, uv') ->
+  forall x, ~ answers has builtin m st n x.
+Proof.
+  intros has builtin m mode_of n st WM Hm uv' H x A.
+  exact (plookup_complete has builtin m mode_of n st WM Hm uv' H x (answers_reaches has builtin m st n x A)).
+Qed.
+Print Assumptions C16_lookup_complete.
